@@ -125,7 +125,28 @@ def _targets(rng, c, length, masked):
 
 
 def _keys(rng):
-  return rng.choice([['y', None], ['y', None], ['label', None], ['y', 'logits'], ['t', 'p']])
+  return rng.choice([['y', None], ['y', None], ['label', None], ['y', 'logits'], ['t', 'p'], ['', None], ['y', '']])
+
+
+def _form(rng, case):
+  """How the example / prediction are handed over: container kind and dtypes (wave 3: delivery forms, dtype variety)."""
+  toks = []
+  if case['pred'] is not None:
+    toks = [v for r in (case['pred'] if case['metric'] in USES_PRED_SEQ else [case['pred']]) for v in r]
+  toks += list(case['args'].get('lm', []))
+  plain = all(not isinstance(v, str) or v in ('inf', '-inf') for v in toks)   # small integers (and +-inf mask entries) only
+  ys = case['y'] if isinstance(case['y'], list) else [case['y']]
+  tds = ['int32', 'int32', 'int64']
+  consts = ys + list(case['args'].get('masked', [0])) + list(case['args'].get('oovs', [])) + [case['args'].get('eos', 0)]
+  if all(0 <= t < 128 for t in consts):   # (a constructor value outside the dtype's range would be wrapped by jnp)
+    tds += ['uint8', 'int8']
+  if not isinstance(case['y'], list):
+    tds.append('pyint')
+  pds = ['float32', 'float32']
+  if plain and not case.get('nonfinite') and case['metric'] not in CE_METRICS:
+    pds += ['float16', 'bfloat16', 'int32']   # (cross-entropy values in half precision are legitimately coarse)
+  return {'arr': rng.choice(['jax', 'numpy']), 'tdtype': rng.choice(tds), 'pdtype': rng.choice(pds),
+          'ctor': rng.choice(['kw', 'pos']), 'extra': rng.random() < 0.3}
 
 
 def _one_case(rng, metric, c=None, length=None):
@@ -165,16 +186,28 @@ def _one_case(rng, metric, c=None, length=None):
       args['eos'] = rng.choice([c - 1, c - 1, 0, 1, 4, -1])
     if metric == 'SequenceTokenOOVRate':
       args['oovs'] = list(rng.choice(OOV_CHOICES))
+    if metric in NO_PRED and rng.random() < 0.1:
+      # ids beyond 2^24: exact as int32, equal after a float32 round trip
+      args['masked'] = [16777217]
+      case['y'] = [rng.choice([16777216, 16777217, 16777218, 1]) for _ in range(length)]
+      if metric == 'SequenceTokenOOVRate':
+        args['oovs'] = [16777216]
+      if metric == 'SequenceTruncationRate':
+        args['eos'] = 16777218
+  case['form'] = _form(rng, case)
   return case
 
 
 def _with_domain(rng, case):
   nd = rng.choice([1, 2, 3, 4])
-  return {**case, 'dom': [nd, rng.randrange(nd)]}
+  dkey = rng.choice(['domain_id', 'domain_id', 'dom', ''])
+  if dkey == case['keys'][0]:
+    dkey = 'domain_id'
+  return {**case, 'dom': [nd, rng.randrange(nd)], 'dkey': dkey}
 
 
 def generate(tier, rng):
-  per = {'quick': 140, 'thorough': 600, 'search': 900}.get(tier, 70)
+  per = {'quick': 110, 'thorough': 600, 'search': 900}.get(tier, 70)
   # structured corners first: k grid x ties for the top-k metrics, fully masked sequences
   for k in range(-7, 10):
     for c in (1, 2, 3, 5):
@@ -202,12 +235,18 @@ def generate(tier, rng):
           case['pred'][j][case['y'][j]] = '-inf'
       case['nonfinite'] = True
       yield case if i % 3 == 0 else _with_domain(rng, case)
+  n_ctx = 0
   for metric in ALL_METRICS:
     for i in range(per):
       case = _one_case(rng, metric)
+      if i % 100 == 7:
+        case['ctx'] = True     # also under jax.jit and jax.vmap (execution contexts)
       yield case
       if i % 4 == 0:
-        yield _with_domain(rng, _one_case(rng, metric))
+        case = _with_domain(rng, _one_case(rng, metric))
+        if i % 200 == 8:
+          case['ctx'] = True
+        yield case
 
 
 # --------------------------------------------------------------------------
@@ -237,26 +276,54 @@ def _metric(case):
     kw['oov_target_values'] = tuple(a['oovs'])
   if 'nc' in a:
     kw['num_classes'] = a['nc']
-  m = getattr(M, name)(**kw)
+  form = case.get('form') or {}
+  if form.get('ctor') == 'pos' and name in ('TopKAccuracy', 'SequenceTokenTopKAccuracy', 'ConfusionMatrix',
+                                            'SequenceTruncationRate', 'SequenceTokenOOVRate'):
+    first = {'TopKAccuracy': 'k', 'SequenceTokenTopKAccuracy': 'k', 'ConfusionMatrix': 'num_classes',
+             'SequenceTruncationRate': 'eos_target_value', 'SequenceTokenOOVRate': 'oov_target_values'}[name]
+    v = kw.pop(first)
+    if first == 'k' and form.get('arr') == 'numpy':
+      v = np.int64(v)      # a NumPy scalar instead of a python int
+    m = getattr(M, name)(v, **kw)
+  else:
+    m = getattr(M, name)(**kw)
   if case['dom'] is not None:
-    m = M.PerDomainMetric(m, case['dom'][0])
+    dkey = case.get('dkey', 'domain_id')
+    if dkey != 'domain_id':
+      m = M.PerDomainMetric(base=m, num_domains=case['dom'][0], domain_id_key=dkey)
+    else:
+      m = M.PerDomainMetric(m, case['dom'][0])
   return m
 
 
 def _example(case):
   import jax.numpy as jnp
+  import types
   tk, pk = case['keys']
-  ex = {tk: jnp.array(case['y'], dtype=jnp.int32)}
+  form = case.get('form') or {'arr': 'jax', 'tdtype': 'int32', 'pdtype': 'float32'}
+  wrap = jnp.asarray if form['arr'] == 'jax' else (lambda a: a)
+  if form['tdtype'] == 'pyint':
+    target = int(case['y'])
+  else:
+    target = wrap(np.array(case['y'], dtype=getattr(np, form['tdtype'])))
+  ex = {tk: target}
   if case['dom'] is not None:
-    ex['domain_id'] = jnp.array(case['dom'][1], dtype=jnp.int32)
+    ex[case.get('dkey', 'domain_id')] = wrap(np.array(case['dom'][1], dtype=np.int32)) if form['arr'] == 'jax' else int(case['dom'][1])
+  if form['arr'] == 'numpy':
+    ex = types.MappingProxyType(ex)      # a read-only Mapping instead of a dict
   if case['pred'] is None:
     pred = jnp.array([])
   else:
     arr = np.array([[_fl(v) for v in r] for r in case['pred']] if case['metric'] in USES_PRED_SEQ
                    else [_fl(v) for v in case['pred']], dtype=np.float32)
-    pred = jnp.array(arr)
+    if form['pdtype'] == 'bfloat16':
+      pred = jnp.asarray(arr).astype(jnp.bfloat16)
+      if form['arr'] == 'numpy':
+        pred = np.asarray(pred)
+    else:
+      pred = wrap(arr.astype(getattr(np, form['pdtype'])))
     if pk is not None:
-      pred = {pk: pred, 'other': jnp.zeros_like(pred)}
+      pred = {pk: pred, 'other': jnp.zeros_like(jnp.asarray(pred))}
   return ex, pred
 
 
@@ -265,6 +332,10 @@ def _stat_obs(stat):
   acc = np.asarray(stat.accum)
   out = {'kind': 'mean' if isinstance(stat, M.MeanStat) else 'sum' if isinstance(stat, M.SumStat) else type(stat).__name__,
          'shape': list(acc.shape), 'accum': [float(v) for v in acc.astype(np.float64).ravel()]}
+  if out['kind'] in ('mean', 'sum'):
+    res = np.asarray(stat.result())
+    out['result'] = [float(v) for v in res.astype(np.float64).ravel()]
+    out['rshape'] = list(res.shape)
   if isinstance(stat, M.MeanStat):
     w = np.asarray(stat.weight)
     out['wshape'] = list(w.shape)
@@ -282,11 +353,59 @@ def _eval(metric, ex, pred):
     return {'error': 'ValueError'}
 
 
+def _leaves_np(tree):
+  import jax
+  return [np.array(x) for x in jax.tree_util.tree_leaves(tree) if hasattr(x, 'shape') or isinstance(x, (int, float))]
+
+
+def _same_stat(a, b):
+  import jax
+  la, lb = jax.tree_util.tree_leaves(a), jax.tree_util.tree_leaves(b)
+  return len(la) == len(lb) and all(np.asarray(x).shape == np.asarray(y).shape and
+                                    np.array_equal(np.asarray(x, np.float64), np.asarray(y, np.float64), equal_nan=True)
+                                    for x, y in zip(la, lb))
+
+
+def _extras(case, metric, ex, pred, obs):
+  """Wave 3: reuse of the metric object, caller-owned inputs, zero() identity, execution contexts."""
+  import jax
+  import jax.numpy as jnp
+  if 'error' in obs:
+    return
+  snap = _leaves_np((dict(ex), pred))
+  first = metric.evaluate_example(ex, pred)
+  again = metric.evaluate_example(ex, pred)
+  obs['reuse_same'] = bool(_same_stat(first, again) and hash(metric) == hash(_metric(case)) and metric == _metric(case))
+  after = _leaves_np((dict(ex), pred))
+  obs['inputs_unchanged'] = bool(len(snap) == len(after) and all(a.dtype == b.dtype and a.shape == b.shape and
+                                                                   np.array_equal(a, b, equal_nan=a.dtype.kind == 'f')
+                                                                   for a, b in zip(snap, after)))
+  z = metric.zero()
+  want = jax.tree_util.tree_map(lambda x: jnp.asarray(x, jnp.float32), first)
+  try:
+    obs['zero_identity'] = bool(_same_stat(z.merge(first), want) and _same_stat(first.merge(z), want))
+  except (ValueError, TypeError) as e:
+    obs['zero_identity'] = 'raises ' + type(e).__name__ + ': zero() leaves ' + \
+        str([tuple(np.shape(x)) for x in jax.tree_util.tree_leaves(z)]) + ', statistic leaves ' + \
+        str([tuple(np.shape(x)) for x in jax.tree_util.tree_leaves(first)])
+  if case.get('ctx'):
+    exd = {k: jnp.asarray(v) for k, v in dict(ex).items()}
+    pr = jax.tree_util.tree_map(jnp.asarray, pred)
+    obs['jit'] = _stat_obs(jax.jit(metric.evaluate_example)(exd, pr))
+    stack = lambda t: jax.tree_util.tree_map(lambda x: jnp.stack([x, x]), t)
+    v = jax.vmap(metric.evaluate_example)(stack(exd), stack(pr))
+    obs['vmap'] = [_stat_obs(jax.tree_util.tree_map(lambda x: x[i], v)) for i in (0, 1)]
+    with jax.disable_jit():
+      obs['nojit'] = _stat_obs(metric.evaluate_example(exd, pr))
+
+
 def run(case):
   from fedjax.core import metrics as M
   metric = _metric(case)
   ex, pred = _example(case)
   obs = _eval(metric, ex, pred)
+  if case.get('form', {}).get('extra') or case.get('ctx'):
+    _extras(case, metric, ex, pred, obs)
   # the documented identities, observed on the implementation itself
   name, a = case['metric'], case['args']
   tk, pk = case['keys']
@@ -309,7 +428,7 @@ def run(case):
     side = M.SequenceTokenTopKAccuracy(k=1, per_position=bool(a['pp']), **skw)
   if side is not None:
     if case['dom'] is not None:
-      side = M.PerDomainMetric(side, case['dom'][0])
+      side = M.PerDomainMetric(side, case['dom'][0], domain_id_key=case.get('dkey', 'domain_id'))
     obs['side'] = _eval(side, ex, pred)
   return obs
 
@@ -484,9 +603,47 @@ def _cmp(case, obs, ref, prefix):
   return out
 
 
+def _extra_oracle(case, obs, ref):
+  out = []
+  if 'error' in obs or ref == 'ValueError':
+    return out
+  name = case['metric']
+  tag = '.'.join([name] + _corner(case))
+  kind, shape, acc, wt = ref
+  # stat.result(): weighted mean (0 for weight 0) / the sum
+  if 'result' in obs and obs['kind'] == kind:
+    if obs['rshape'] != shape:
+      out.append((f'{tag}.result.shape', f'result shape {obs["rshape"]}, expected {shape}'))
+    else:
+      for i, x in enumerate(obs['result']):
+        a = acc[i]
+        want = a if kind == 'sum' else (0.0 if wt[i] == 0 else a / wt[i])
+        okay = (math.isinf(want) and x == want) if isinstance(want, float) and math.isinf(want) else \
+               (math.isfinite(x) and abs(x - want) <= 1e-5 * (1 + abs(want)))
+        if not okay:
+          out.append((f'{tag}.result', f'result[{i}] = {x!r}, statistic ({a}, {wt[i] if wt else None}) gives {want!r}'))
+          break
+  if obs.get('reuse_same') is False:
+    out.append((f'{name}.reuse', 'a second evaluate_example of the same metric object on the same example differs, or equal constructor arguments give unequal / differently hashed metrics'))
+  if obs.get('inputs_unchanged') is False:
+    out.append((f'{name}.input-mutated', 'evaluate_example changed the caller\'s example / prediction arrays'))
+  zi = obs.get('zero_identity')
+  if zi is False or isinstance(zi, str):
+    # PerDomainMetric over a per-position base: zero() has shape (num_domains,), the statistic (num_domains, length)
+    key = 'per-domain.per-position.zero-shape' if (case['dom'] is not None and case['args'].get('pp')) else f'{name}.zero-identity'
+    out.append((key, 'zero().merge(v) / v.merge(zero()) ' + (zi if isinstance(zi, str) else 'differs from v (values or shape)')))
+  for ctx in ('jit', 'nojit'):
+    if ctx in obs:
+      out += [(k.replace(tag, f'{tag}.context-{ctx}', 1), 'under ' + ctx + ': ' + w) for k, w in _cmp(case, obs[ctx], ref, '')][:1]
+  for i, o in enumerate(obs.get('vmap', [])):
+    out += [(k.replace(tag, f'{tag}.context-vmap', 1), f'under vmap (row {i}): ' + w) for k, w in _cmp(case, o, ref, '')][:1]
+  return out
+
+
 def oracle(case, obs):
   ref = _ref(case)
   out = _cmp(case, obs, ref, '')
+  out += _extra_oracle(case, obs, ref)
   name = case['metric']
   side = obs.get('side')
   if side is not None and 'error' not in obs:
